@@ -269,6 +269,61 @@ fn check_unassigned_columns(ctx: &mut Ctx, c: usize) {
     }
 }
 
+/// every recognised position keeps its descriptor however many other recognised positions share the mask: signal
+/// masks holding the first k table entries for every k, the last k, and the whole table, one cell on each column
+/// in turn.  All columns are recognised, so these frames are well formed and must decode.
+fn check_full_table_columns(ctx: &mut Ctx, c: usize) {
+    let cn = sig::CONSTELLATIONS[c];
+    let rec = sig::positions(c);
+    let mut masks: Vec<Vec<u8>> = Vec::new();
+    for k in 1..=rec.len() {
+        masks.push(rec[..k].to_vec());
+        masks.push(rec[rec.len() - k..].to_vec());
+    }
+    masks.sort();
+    masks.dedup();
+    for cols in masks {
+        for &p in &cols {
+            ctx.eval();
+            ctx.count("frames_with_many_recognised_columns");
+            ctx.max("largest_signal_mask_decoded_columns", cols.len() as f64);
+            let f = frame_with_columns(c, &cols, p);
+            let m = match guard(|| MessageFrame::new(&f).ok().map(|mf| mf.get_message())) {
+                Ok(Some(m)) => m,
+                Ok(None) => {
+                    ctx.violation("C18.reference_frame_rejected".into(), "C18.reference_frame_rejected", crate::mon::hex_short(&f), json!({"kind":"columns","constellation":c,"columns":cols,"pos":p}));
+                    continue;
+                }
+                Err(_) => {
+                    ctx.count("decode_panics_left_to_C02");
+                    continue;
+                }
+            };
+            let mut found: Option<(u8, char)> = None;
+            if let Ok(mut vv) = vtree::to_v(&m) {
+                crate::mutate::walk_mut(&mut vv, ("", ""), &mut |node, site, _| {
+                    if site == crate::mutate::Site::Sig {
+                        if let V::TupleStruct(_, xs) = node {
+                            if let (V::U8(b), V::Char(a)) = (&xs[0], &xs[1]) {
+                                found = Some((*b, *a));
+                            }
+                        }
+                    }
+                });
+            }
+            let exp = sig::pos_to_sig(c, p);
+            if found != exp {
+                ctx.violation(
+                    format!("C18.position_to_descriptor|{}|among_{}_recognised_columns", cn, if cols.len() > 16 { "more_than_16" } else { "up_to_16" }),
+                    "C18.position_to_descriptor",
+                    format!("{}: a cell at signal-mask position {} in a mask of {} recognised positions decodes as {} / {:?} (reference {:?})", cn, p, cols.len(), crate::framing::msg_class(&m), found, exp),
+                    json!({"kind":"columns","constellation":c,"columns":cols,"pos":p}),
+                );
+            }
+        }
+    }
+}
+
 fn rv(c: usize, b: u8, a: char) -> Value {
     json!({"kind":"descriptor","constellation":c,"band":b,"attr":a as u32})
 }
@@ -421,6 +476,7 @@ pub fn run(p: &Params) -> Outcome {
             // the position sweep is part of job band 0
             let base = if band == 0 {
                 check_unassigned_columns(ctx, c);
+            check_full_table_columns(ctx, c);
                 base_for(ctx, c)
             } else {
                 // cheap: rebuild the base from the first recognised reference position
@@ -539,7 +595,7 @@ pub fn run(p: &Params) -> Outcome {
     }
     Outcome {
         ctx: total,
-        rule: "exhaustive descriptor sweep through is_valid and through the encoder of a one-cell MSM1 message per constellation, all 32 mask positions through the decoder, all pairs/triples of recognised descriptors and sampled mixed triples through Ord::cmp, PartialOrd::partial_cmp and the operators < <= > >=; oracle: SigRef tables (RTCM 10403.3 via RTKLIB), inverse bijection onto a subset of 2..=32, valid iff in table, order by position with unrecognised last, total order consistent with == and the same through cmp, partial_cmp and the operators".into(),
+        rule: "exhaustive descriptor sweep through is_valid and through the encoder of a one-cell MSM1 message per constellation, all 32 mask positions through the decoder (alone, next to unassigned mask bits, and among the first k / last k / all recognised positions of the table), all pairs/triples of recognised descriptors and sampled mixed triples through Ord::cmp, PartialOrd::partial_cmp and the operators < <= > >=; oracle: SigRef tables (RTCM 10403.3 via RTKLIB), inverse bijection onto a subset of 2..=32, valid iff in table, order by position with unrecognised last, total order consistent with == and the same through cmp, partial_cmp and the operators".into(),
         exhaustive: false,
         extra: json!({}),
     }
@@ -560,6 +616,7 @@ pub fn replay(_p: &Params, v: &Value) -> Outcome {
             base_for(&mut ctx, c);
         }
         "unassigned_column" => check_unassigned_columns(&mut ctx, c),
+        "columns" => check_full_table_columns(&mut ctx, c),
         "triple" => check_order(&mut ctx, c, d(&v["x"]), d(&v["y"]), d(&v["z"])),
         k => ctx.inconclusive(format!("unknown replay kind {}", k)),
     }
